@@ -133,7 +133,7 @@ def gen_sp_program3(rng):
     """retry patterns: an entity that already has a version object in this transaction (or only an older version) is
     changed and flushed inside a savepoint, the savepoint is rolled back, and the entity is changed again - to the SAME
     value (a retry) or to another one - before the commit"""
-    prog = [['add', 0, 1, {'a': 1}], ['add', 0, 2, {'a': 1}], ['add', 1, 1, {'a': 0}], ['commit']]
+    prog = [['add', 0, 1, {'a': 1}], ['add', 0, 2, {'a': 1}], ['add', 1, 1, {'a': 0}], ['add', 3, 1, {'a': 0}], ['commit']]
     val = 10
     for rnd in range(rng.randint(1, 3)):
         e = rng.choice([1, 2])
@@ -145,6 +145,12 @@ def gen_sp_program3(rng):
         prog += [['sp_begin'], ['set', 0, e, {'a': val + 1}], ['flush']]
         if rng.random() < 0.3:
             prog += [['set', 0, e, {'b': val}], ['flush']]
+        if rng.random() < 0.25:
+            # a second savepoint level: a flush fails in the inner one (the classic insert-or-skip loop), the outer
+            # one stays open, more versioned work follows and the outer one is released or rolled back
+            prog += [['sp_begin'], ['sp_fail', 7 + rnd, 1] + (['explicit'] if rng.random() < 0.5 else []), ['set', 0, e, {'a': val + 2}], ['flush'],
+                     [rng.choice(['sp_release', 'sp_release', 'sp_rollback'])], ['set', 0, 3 - e, {'a': val + 2}], ['commit']]
+            continue
         if rng.random() < 0.25:
             # the savepoint is RELEASED, then the whole transaction is rolled back and the session goes on
             prog += [['sp_release'], ['rollback'], ['set', 0, e, {'a': val + 2}], ['commit']]
@@ -227,6 +233,13 @@ def corpus():
             dict(kind='S', cfg=cfg, prog=[['add', 0, 1, {'a': 1}], ['add', 2, 2, {'a': 0}], ['commit'], ['set', 0, 1, {'a': 2}], ['flush'],
                                           ['sp_begin'], ['rawlink', 1, 2], ['sp_rollback'], ['set', 0, 1, {'a': 3}], ['flush'],
                                           ['commit']]),
+            # two savepoint levels, a flush failing in the inner one
+            dict(kind='S', cfg=cfg, prog=[['add', 0, 1, {'a': 1}], ['add', 0, 2, {'a': 1}], ['add', 3, 1, {'a': 0}], ['commit'],
+                                          ['sp_begin'], ['set', 0, 1, {'a': 2}], ['flush'], ['sp_begin'], ['sp_fail', 7, 1],
+                                          ['set', 0, 2, {'a': 3}], ['flush'], ['sp_release'], ['commit']]),
+            dict(kind='S', cfg=cfg, prog=[['add', 0, 1, {'a': 1}], ['add', 0, 2, {'a': 1}], ['add', 3, 1, {'a': 0}], ['commit'],
+                                          ['sp_begin'], ['set', 0, 1, {'a': 2}], ['flush'], ['sp_begin'], ['sp_fail', 7, 1, 'explicit'],
+                                          ['set', 0, 2, {'a': 3}], ['flush'], ['sp_release'], ['commit']]),
             # a released savepoint, then the outer transaction rolled back, then the session goes on
             dict(kind='S', cfg=cfg, prog=[['add', 0, 1, {'a': 1}], ['add', 0, 2, {'a': 1}], ['commit'], ['set', 0, 1, {'a': 2}], ['flush'],
                                           ['sp_begin'], ['set', 0, 2, {'a': 2}], ['flush'], ['sp_release'], ['rollback'],
